@@ -7,6 +7,7 @@ From NV Require Import FatTable.Model FatTable.ProofsBase FatTable.ProofsSet32 F
 From NV Require Import FatAlloc.Model FatAlloc.ProofsBase FatAlloc.ProofsGrow FatAlloc.ProofsOps FatAlloc.ProofsWrite FatAlloc.ProofsFrame FatAlloc.Proofs.
 From NV Require Import FatRead.Model FatData.Model FatData.Spec FatData.ProofsBase FatData.Proofs.
 From NV Require FatDir.Model FatDir.ProofsBase FatDir.ProofsView FatDir.ProofsClean FatDir.ProofsOps FatDir.ProofsAppend FatDir.ProofsMain.
+From NV Require FatVol.Model FatVol.Spec FatVol.ProofsBase FatVol.ProofsInv FatVol.Proofs.
 Import ListNotations.
 Open Scope N_scope.
 
@@ -91,7 +92,7 @@ Print Assumptions C04_other_clusters_untouched.
 
 (* stage E (directory entries): storing an existing name (any case variant or its alias) rewrites exactly that one record, keeping the stored name fields and attr2 *)
 Theorem C04_dir_update_in_place :
-  forall (upper : list N -> list N) (spc : N) (d : Model.dir) (name : list N) (entry : Model.rec) (g : Model.group) (x : list N * list N * Model.rec), ProofsClean.wf_recs (Model.d_recs d) -> ProofsView.cap_ok d -> ProofsOps.entry_ok entry -> Model.find upper (upper name) (upper name) (Model.groups (Model.d_recs d)) = Ok (Some (g, x)) -> let old := Model.g_short g in let new := Model.short_record entry (Model.fld de_filename old) (Model.fld de_ext old) (Model.byte_at de_attr2 old) in exists (G1 G2 : list Model.group) (A B : list Model.rec), Model.setitem upper spc d name entry = ({| Model.d_recs := Model.set_nth (N.to_nat (Model.g_off g)) new (Model.d_recs d); Model.d_cap := Model.d_cap d |}, None) /\ Model.d_recs d = A ++ old :: B /\ Model.set_nth (N.to_nat (Model.g_off g)) new (Model.d_recs d) = A ++ new :: B /\ Model.g_off g = N.of_nat (length A) /\ Model.fld de_filename new = Model.fld de_filename old /\ Model.fld de_ext new = Model.fld de_ext old /\ Model.byte_at de_attr2 new = Model.byte_at de_attr2 old /\ Model.attr_of new = Model.attr_of entry /\ skipn 13 new = skipn 13 entry /\ length new = 32%nat /\ Model.groups (Model.d_recs d) = G1 ++ g :: G2 /\ Model.groups (A ++ new :: B) = G1 ++ (Model.g_off g, Model.g_lfns g, new) :: G2 /\ Model.split_g (Model.g_off g, Model.g_lfns g, new) = Ok (fst x, new) /\ ProofsView.view (A ++ new :: B) = List.map Model.split_g G1 ++ Ok (fst x, new) :: List.map Model.split_g G2.
+  forall (upper : list N -> list N) (spc : N) (d : Model.dir) (name : list N) (entry : Model.rec) (g : Model.group) (x : list N * list N * Model.rec), ProofsClean.wf_recs (Model.d_recs d) -> ProofsView.cap_ok d -> ProofsOps.entry_ok entry -> Model.find upper (upper name) (upper name) (Model.groups (Model.d_recs d)) = Ok (Some (g, x)) -> let old := Model.g_short g in let new := Model.short_record entry (Model.fld de_filename old) (Model.fld de_ext old) (Model.byte_at de_attr2 old) in exists (G1 G2 : list Model.group) (A B : list Model.rec), FatDir.Model.setitem upper spc d name entry = ({| Model.d_recs := Model.set_nth (N.to_nat (Model.g_off g)) new (Model.d_recs d); Model.d_cap := Model.d_cap d |}, None) /\ Model.d_recs d = A ++ old :: B /\ Model.set_nth (N.to_nat (Model.g_off g)) new (Model.d_recs d) = A ++ new :: B /\ Model.g_off g = N.of_nat (length A) /\ Model.fld de_filename new = Model.fld de_filename old /\ Model.fld de_ext new = Model.fld de_ext old /\ Model.byte_at de_attr2 new = Model.byte_at de_attr2 old /\ Model.attr_of new = Model.attr_of entry /\ skipn 13 new = skipn 13 entry /\ length new = 32%nat /\ Model.groups (Model.d_recs d) = G1 ++ g :: G2 /\ Model.groups (A ++ new :: B) = G1 ++ (Model.g_off g, Model.g_lfns g, new) :: G2 /\ Model.split_g (Model.g_off g, Model.g_lfns g, new) = Ok (fst x, new) /\ ProofsView.view (A ++ new :: B) = List.map Model.split_g G1 ++ Ok (fst x, new) :: List.map Model.split_g G2.
 Proof. exact FatDir.ProofsOps.setitem_existing_updates_in_place. Qed.
 Print Assumptions C04_dir_update_in_place.
 
@@ -100,6 +101,40 @@ Theorem C04_dir_delitem_spec :
   forall (upper : list N -> list N) (spc : N) (d : Model.dir) (name : list N), ProofsClean.wf_recs (Model.d_recs d) -> ProofsView.cap_ok d -> match Model.find upper (upper name) (upper name) (Model.groups (Model.d_recs d)) with | Ok (Some (g, x)) => exists (d' : Model.dir) (G1 G2 : list Model.group) (pre seg post : list Model.rec), Model.delitem upper spc d name = (d', None) /\ Model.d_cap d' = Model.d_cap d /\ Model.groups (Model.d_recs d) = G1 ++ g :: G2 /\ Model.groups (Model.d_recs d') = G1 ++ G2 /\ Model.d_recs d = pre ++ seg ++ post /\ Model.d_recs d' = pre ++ (List.map Model.mark_lfn (Model.g_lfns g) ++ [Model.mark_short (Model.g_short g)]) ++ post /\ length seg = S (length (Model.g_lfns g)) /\ Model.g_off g + 1 = N.of_nat (length pre + length seg) /\ (forall k : list N, ProofsView.hit upper (upper k) (upper k) x = false -> Model.getitem upper d' k = Model.getitem upper d k) /\ (forall names : list (list N), Model.listing d = Ok names -> Model.listing d' = Ok (firstn (length G1) names ++ skipn (S (length G1)) names)) | Ok None => Model.delitem upper spc d name = (d, Some KeyError) | Err e => Model.delitem upper spc d name = (d, Some e) end.
 Proof. exact FatDir.ProofsOps.delitem_spec. Qed.
 Print Assumptions C04_dir_delitem_spec.
+
+(* stage P (path operations over the whole volume at record level: FAT values + every directory s decoded entries, dead slots, dot entries): every operation -- open(w/x/a/r+)+action+close, touch, unlink, mkdir, rmdir, rename in all its branches -- with every outcome, ENOSPC included, preserves VolInv: all chains well-formed and pairwise disjoint, no lost cluster, sizes match chains, empty files own no cluster, dot entries right, names and aliases unique, the directory graph is a tree *)
+Theorem C04_path_step_inv :
+  forall (upper : Model.name -> Model.name) (V : Model.vparams), ProofsInv.params_wf V -> forall (s : Model.vol) (o : Model.op), ProofsInv.VolInv upper V s -> Proofs.op_guard upper s o -> ProofsInv.VolInv upper V (fst (Model.step upper V s o)).
+Proof. exact FatVol.Proofs.FV_step_inv. Qed.
+Print Assumptions C04_path_step_inv.
+
+(* stage P: outcome and tree of every operation are those of the plain in-memory tree model (the same rules as harness/fatops.py) *)
+Theorem C04_path_step_refines :
+  forall (upper : Model.name -> Model.name) (V : Model.vparams), ProofsInv.params_wf V -> forall (s : Model.vol) (o : Model.op), ProofsInv.VolInv upper V s -> Proofs.op_guard upper s o -> snd (Model.step upper V s o) <> Err OSError_ENOSPC -> Spec.spec_step upper (Spec.abs_tree s) o = (Spec.abs_tree (fst (Model.step upper V s o)), snd (Model.step upper V s o)).
+Proof. exact FatVol.Proofs.FV_step_refines. Qed.
+Print Assumptions C04_path_step_refines.
+
+Theorem C04_path_failure_keeps_tree :
+  forall (upper : Model.name -> Model.name) (V : Model.vparams), ProofsInv.params_wf V -> forall (s : Model.vol) (o : Model.op) (x : exn), ProofsInv.VolInv upper V s -> Proofs.op_guard upper s o -> snd (Model.step upper V s o) = Err x -> x <> OSError_ENOSPC -> Spec.abs_tree (fst (Model.step upper V s o)) = Spec.abs_tree s.
+Proof. exact FatVol.Proofs.FV_failure_keeps_tree. Qed.
+Print Assumptions C04_path_failure_keeps_tree.
+
+(* stage P: ANY history *)
+Theorem C04_path_history_inv :
+  forall (upper : Model.name -> Model.name) (V : Model.vparams), ProofsInv.params_wf V -> forall (ops : list Model.op) (s : Model.vol), ProofsInv.VolInv upper V s -> Proofs.run_guard upper V s ops -> ProofsInv.VolInv upper V (fst (Model.run upper V s ops)).
+Proof. exact FatVol.Proofs.FV_history_inv. Qed.
+Print Assumptions C04_path_history_inv.
+
+(* stage P: ANY history without ENOSPC refines the plain tree model and ends in VolInv (history_refines at record level) *)
+Theorem C04_path_history_refines :
+  forall (upper : Model.name -> Model.name) (V : Model.vparams), ProofsInv.params_wf V -> forall (ops : list Model.op) (s : Model.vol), ProofsInv.VolInv upper V s -> Proofs.run_guard upper V s ops -> Proofs.run_no_enospc upper V s ops -> ProofsInv.VolInv upper V (fst (Model.run upper V s ops)) /\ Spec.spec_run upper (Spec.abs_tree s) ops = (Spec.abs_tree (fst (Model.run upper V s ops)), snd (Model.run upper V s ops)).
+Proof. exact FatVol.Proofs.FV_history_refines. Qed.
+Print Assumptions C04_path_history_refines.
+
+Theorem C04_path_rename_refines :
+  forall (upper : Model.name -> Model.name) (V : Model.vparams) (s : Model.vol) (p q : list Model.name), ProofsInv.params_wf V -> ProofsInv.VolInv upper V s -> ProofsWalk.tilde_free upper p -> ProofsWalk.tilde_free upper q -> ProofsFileOp.guard_create upper s q -> snd (Model.rename upper V s p q) <> Err OSError_ENOSPC -> Spec.spec_rename upper (Spec.abs_tree s) p q = (Spec.abs_tree (fst (Model.rename upper V s p q)), snd (Model.rename upper V s p q)).
+Proof. exact FatVol.Proofs.FV_rename_refines. Qed.
+Print Assumptions C04_path_rename_refines.
 
 (* ANY sequence of file operations on any family of files sharing one table: every file stays well-formed, chains stay disjoint, foreign entries (directories, reserved) keep their value *)
 Theorem C04_history_partial :
